@@ -11,6 +11,7 @@ import (
 
 func init() {
 	vk.Register("C19", "huge", runHuge)
+	vk.Register("C19", "nan", runNaN)
 	vk.Register("C19", "reuse", runReuse)
 	vk.Register("C19", "det", runDet)
 	vk.Register("C19", "stat", runStat)
@@ -18,7 +19,66 @@ func init() {
 
 func TestReplay(t *testing.T) { vk.ReplayMain(t) }
 
-// TestC19Huge: buffers of 2^17 .. 2^20 elements, filled, Reset and reused.
+// TestC19NaN: Add must return (and Reset must empty the counter) when the
+// buffer fills up with values that cannot be deleted.
+func TestC19NaN(t *testing.T) {
+	h := vk.Start(t, "C19", "nan")
+	vk.Rapid(h, t, func(t *rapid.T) NaNCase {
+		size := rapid.SampledFrom([]int{2, 3, 4, 8, 16, 17, 64, 100}).Draw(t, "size")
+		return NaNCase{Size: size, N: rapid.IntRange(1, 4*size).Draw(t, "n"), Mix: rapid.SampledFrom([]int{0, 0, 2, 3, 7}).Draw(t, "mix")}
+	}, runNaN)
+}
+
+// hugeShape is one case of the huge leg with an element kind: which kind, and
+// how many distinct values go into a buffer of which size (a little jitter is
+// added to fill).
+type hugeShape struct {
+	elem             string
+	size, fill, post int
+	heavy            bool // more than 64 MiB of elements: not among the rotating extras of the quick tier
+}
+
+// hugeCore runs in both tiers.  Elements of 88, 64, 512 and 16 bytes fill
+// more than 4, 16, 64 and 4 MiB while the counter must stay exact; all 65536
+// values of a 2-byte type; buffer sizes beyond 2^32 whose low 32 bits are
+// smaller than the stream.
+var hugeCore = []hugeShape{
+	{elem: "wide", size: 60000, fill: 56000, post: 1500},
+	{elem: "a64", size: 300000, fill: 270000, post: 1500},
+	{elem: "a512", size: 150000, fill: 135000, post: 300},
+	{elem: "string", size: 300000, fill: 270000, post: 1500},
+	{elem: "i16", size: 1<<17 + 1, fill: 1 << 16, post: 0},
+	{elem: "", size: 1<<32 + 100000, fill: 150000, post: 1500},
+	{elem: "int", size: 3 << 32, fill: 140000, post: 1500},
+}
+
+// hugeMore runs in the thorough tier; two of them (by seed) in the quick tier.
+var hugeMore = []hugeShape{
+	{elem: "wide", size: 220000, fill: 200000, post: 1500},                  // > 16 MiB
+	{elem: "wide", size: 800000, fill: 770000, post: 1500, heavy: true},     // > 64 MiB
+	{elem: "wide", size: 50000, fill: 75000, post: 1500},                    // halved
+	{elem: "a64", size: 80000, fill: 70000, post: 1500},                     // > 4 MiB
+	{elem: "a64", size: 1200000, fill: 1100000, post: 1500, heavy: true},    // > 64 MiB
+	{elem: "a512", size: 10000, fill: 9000, post: 300},                      // > 4 MiB
+	{elem: "a512", size: 40000, fill: 36000, post: 300},                     // > 16 MiB
+	{elem: "a512", size: 30000, fill: 45000, post: 300},                     // halved
+	{elem: "string", size: 1200000, fill: 1100000, post: 1500, heavy: true}, // > 16 MiB of string headers
+	{elem: "any", size: 300000, fill: 280000, post: 1500},                   // > 4 MiB of interface words
+	{elem: "ptr", size: 600000, fill: 560000, post: 1500},                   // > 4 MiB of pointers
+	{elem: "f64", size: 600000, fill: 560000, post: 1500},
+	{elem: "int", size: 600000, fill: 560000, post: 1500},
+	{elem: "i16", size: 1 << 18, fill: 60000, post: 2000},
+	{elem: "wide", size: 1 << 52, fill: 60000, post: 1500},
+	{elem: "string", size: math.MaxInt, fill: 100000, post: 1500},
+	{elem: "a64", size: 1 << 31, fill: 100000, post: 1500},
+	{elem: "ptr", size: 1<<32 + 8, fill: 50000, post: 1500},
+	{elem: "any", size: 1<<32 - 1, fill: 50000, post: 1500},
+	{elem: "f64", size: 1<<40 + 70000, fill: 100000, post: 1500},
+	{elem: "", size: math.MaxInt - 1, fill: 100000, post: 1500},
+}
+
+// TestC19Huge: buffers of 2^17 .. 2^20 elements, filled, Reset and reused;
+// then the shapes with an element kind.
 func TestC19Huge(t *testing.T) {
 	h := vk.Start(t, "C19", "huge")
 	slot := h.Slot()
@@ -26,17 +86,7 @@ func TestC19Huge(t *testing.T) {
 	rng := h.RNG("huge")
 	sizes := []int{1<<18 + 2, 300000, 1<<17 + 1, 1<<19 + 3, 1 << 20, 1<<18 - 1, 1 << 18, 1<<18 + 1}
 	n := h.Pick(5, 80)
-	for i := 0; i < n && !h.Failed(); i++ {
-		size := sizes[i%len(sizes)]
-		c := HugeCase{Size: size, After: 3 + rng.Intn(2000)}
-		switch i % 3 {
-		case 0:
-			c.Fill = size - 1 - rng.Intn(8)
-		case 1:
-			c.Fill = size/2 + rng.Intn(size/2)
-		default:
-			c.Fill = size + rng.Intn(size)
-		}
+	run := func(i int, c HugeCase) {
 		o := &vk.Obs{}
 		slot.Enter(c)
 		msg := vk.Guard(func() string { return runHuge(c, o) })
@@ -50,6 +100,45 @@ func TestC19Huge(t *testing.T) {
 			h.Sample(c, o.NT)
 		}
 	}
+	for i := 0; i < n && !h.Failed(); i++ {
+		size := sizes[i%len(sizes)]
+		c := HugeCase{Size: size, After: 3 + rng.Intn(2000)}
+		switch i % 3 {
+		case 0:
+			c.Fill = size - 1 - rng.Intn(8)
+		case 1:
+			c.Fill = size/2 + rng.Intn(size/2)
+		default:
+			c.Fill = size + rng.Intn(size)
+		}
+		run(i, c)
+	}
+	// element kinds
+	shapes := append([]hugeShape(nil), hugeCore...)
+	if h.Thorough() {
+		shapes = append(shapes, hugeMore...)
+	} else {
+		var light []hugeShape
+		for _, s := range hugeMore {
+			if !s.heavy {
+				light = append(light, s)
+			}
+		}
+		a := rng.Intn(len(light))
+		b := (a + 1 + rng.Intn(len(light)-1)) % len(light)
+		shapes = append(shapes, light[a], light[b])
+	}
+	for i, s := range shapes {
+		if h.Failed() {
+			break
+		}
+		c := HugeCase{Elem: s.elem, Size: s.size, Fill: s.fill, After: s.post}
+		if s.elem != "i16" {
+			c.Fill += rng.Intn(1000)
+			c.After += rng.Intn(500)
+		}
+		run(n+i, c)
+	}
 	h.MergeTally(tl)
 }
 
@@ -59,10 +148,14 @@ func TestC19Reuse(t *testing.T) {
 	slot := h.Slot()
 	tl := vk.NewTally()
 	n := 0
+	kindRot := h.RNG("kinds").Intn(len(detKinds))
 	for _, size := range []int{16, 32, 64, 100} {
 		for _, mult := range []int{21, 33, 47} {
 			for rep := 0; rep < h.Pick(2, 12); rep++ {
 				c := ReuseCase{Size: size, D: size*mult + 1 + rep, M: 24}
+				if n%2 == 1 { // every other case with an element kind, in turn
+					c.Elem = detKinds[(n/2+kindRot)%len(detKinds)]
+				}
 				o := &vk.Obs{}
 				slot.Enter(c)
 				msg := vk.Guard(func() string { return runReuse(c, o) })
@@ -127,11 +220,33 @@ func buildStream(d, k int, order string, rng *vk.RNG) []int {
 var orders = []string{"shuffle", "rounds", "adjacent"}
 var listedSizes = []int{2, 3, 4, 8, 16, 64}
 
+// farSizes are buffer sizes no stream of the det leg can fill: a counter of
+// such a size is exact throughout.  Around the powers of two at which a
+// narrower representation of the size would wrap (16, 24, 31, 32 bits; the 53
+// bits of a float64), and the ends of the int range.
+var farSizes = []int{1 << 16, 1<<16 + 8, 1<<24 + 8, 1 << 31, 1<<31 + 5, 1<<32 - 1, 1 << 32, 1<<32 + 1, 1<<32 + 8, 1<<32 + 100,
+	3 << 32, 1 << 40, 1 << 52, 1<<53 + 1, 1 << 62, math.MaxInt - 1, math.MaxInt}
+
 // genDet draws a stream for the deterministic leg.  Small streams are drawn
 // element by element (they shrink well); large ones are expanded from a drawn
 // descriptor (size, d, k, interleaving, seed) into the explicit value list,
 // so the case is complete data either way.
+//
+// About half of the cases keep the plain ints, the others draw an element
+// kind.  In about one case of ten (rapid favours small draws) the stream is laid out for the size drawn first and
+// the counter then gets a size from farSizes.
 func genDet(t *rapid.T) DetCase {
+	c := genDetStream(t)
+	if rapid.Bool().Draw(t, "elemKind") {
+		c.Elem = rapid.SampledFrom(detKinds).Draw(t, "elem")
+	}
+	if rapid.IntRange(0, 49).Draw(t, "farSize") == 0 {
+		c.Size = rapid.SampledFrom(farSizes).Draw(t, "far")
+	}
+	return c
+}
+
+func genDetStream(t *rapid.T) DetCase {
 	c := DetCase{}
 	if rapid.IntRange(0, 3).Draw(t, "listedSize") > 0 {
 		c.Size = rapid.SampledFrom(listedSizes).Draw(t, "size")
@@ -212,6 +327,14 @@ func statStreams(h *vk.H, R int) []StatCase {
 		vals := buildStream(d, k, order, rng)
 		out = append(out, StatCase{Size: size, Vals: vals, Mid: len(vals) / 2, R: R})
 	}
+	// every other stream with an element kind; which streams and which kinds
+	// turns with the seed (drawn last: the streams are those of the plain leg)
+	krot := rng.Intn(2 * len(detKinds))
+	for i := range out {
+		if (i+krot)%2 == 1 {
+			out[i].Elem = detKinds[(i/2+krot/2)%len(detKinds)]
+		}
+	}
 	return out
 }
 
@@ -230,10 +353,14 @@ func TestC19Stat(t *testing.T) {
 	worstMsg, worstT := "", 0.0
 	for _, c := range statStreams(h, R) {
 		mids, ends := make([]float64, R), make([]float64, R)
+		oneCounter, bad := statRunner(c)
+		if bad != "" {
+			t.Fatal(bad)
+		}
 		slot.Enter(c)
 		var pmsg atomic.Value
 		vk.Parallel(h, R, func(worker, i int) {
-			if m := vk.Guard(func() string { mids[i], ends[i] = oneCounter(c); return "" }); m != "" {
+			if m := vk.Guard(func() string { mids[i], ends[i] = oneCounter(); return "" }); m != "" {
 				pmsg.Store(m)
 			}
 		})
@@ -276,6 +403,7 @@ func TestC19Stat(t *testing.T) {
 		if size < 8 {
 			tl.Classes["heavy_tailed_size<8"]++
 		}
+		tl.Classes["elem="+kindName(c.Elem)]++
 		for _, x := range []float64{res.TEnd, res.TMid} {
 			if math.Abs(x) > maxAbsT {
 				maxAbsT = math.Abs(x)
@@ -284,8 +412,8 @@ func TestC19Stat(t *testing.T) {
 		checkpoints += 2
 		h.Sample(c, nt)
 		h.Count("counter_runs", int64(R))
-		h.Note("size %d, %d values, %d distinct (mid %d): mean %.3f (t=%+.2f), mid mean %.3f (t=%+.2f), s/d=%.3f",
-			size, len(c.Vals), d, res.DMid, res.End.Mean, res.TEnd, res.Mid.Mean, res.TMid, res.End.SD/math.Max(1, float64(d)))
+		h.Note("size %d, elem %s, %d values, %d distinct (mid %d): mean %.3f (t=%+.2f), mid mean %.3f (t=%+.2f), s/d=%.3f",
+			size, kindName(c.Elem), len(c.Vals), d, res.DMid, res.End.Mean, res.TEnd, res.Mid.Mean, res.TMid, res.End.SD/math.Max(1, float64(d)))
 	}
 	if worst != nil {
 		p := h.Fail(*worst, worstMsg)
